@@ -787,7 +787,7 @@ pub fn streamsm(trace: &[Value]) -> Vec<Value> {
                 let k = e["res"]["k"].as_str().unwrap_or("");
                 let closed = e["pre"]["st"].as_i64().unwrap_or(0) >= 2;
                 match op {
-                    "write" | "finish" | "reset" | "stopped" | "stop" => {
+                    "write" | "finish" | "reset" | "stopped" | "stop" | "received_reset" => {
                         out.push(json!({"ev":"Op","side":side,"op":op,"id":e["id"],"res":k,
                             "code":e["res"].get("code").map_or(-1, cap),"arg":e.get("code").map_or(-1, cap),
                             "closed":closed}));
